@@ -492,7 +492,7 @@ def cases(rng, tier):
     yield su.jacket_case()
     for c in cases_reconfigure():
         yield c
-    n0, n1, nv, nn, n2 = (40, 16, 3, 4, 1) if tier == "quick" else (400, 150, 30, 20, 8)
+    n0, n1, nv, nn, n2 = (28, 12, 3, 4, 1) if tier == "quick" else (400, 150, 30, 20, 8)
     # processes with more than 10 000 steps (save stride > 1): the model integrates the hazard on EVERY
     # step; the nucleation step is compared exactly
     for c in su.stride_cases():
